@@ -859,3 +859,41 @@ def c15(run, replay):
     for s in scen[:3]:
         run.sample(s)
     run.sample([e for e in trace if e.get("ev") in ("ConnEnded", "HandlerCtxDone", "ConnGoroutines", "CtxMissing")][:12])
+
+
+# --------------------------------------------------------------------------------------------- C16
+@check("C16")
+def c16(run, replay):
+    run.assumptions += [
+        "2-4 simultaneously connected clients, 2-6 concurrent forward calls each, every handler calling back (direct name, client-side alias, method "
+        "tag) while the forward call is pending; the first client's connection lost {before the reverse call is made, inside the reverse request frame, "
+        "inside the reverse response frame} at {header, payload, last byte}; server without the reverse option; HTTP clients",
+        "a reverse handler logs which client it runs on; a forward call returns the name its reverse call obtained",
+    ]
+    thorough = run.tier == "thorough"
+    wd = run.dir("work")
+    rnd = random.Random(run.seed)
+    run.model_check(wd, "Reverse.tla", "Reverse.cfg", timeout=900)
+    r = run.tlc(wd, "Reverse.tla", "Reverse_shared.cfg", timeout=600, tag="model_runs")
+    if r["violated"] != "OwnClient":
+        raise vp.ToolFailure("self-test: Reverse.tla with a shared reverse client should misroute, got %s" % r["violated"])
+    scen = []
+    for k in (2, 3, 4):
+        for calls in ([2, 6] if thorough else [rnd.choice([2, 6])]):
+            scen.append({"sc": "c16.reverse", "args": {"clients": k, "calls": calls, "reverse": True}})
+    for lose in ("before", "request", "response"):
+        for pos in (["cut-hdr", "cut-payload", "cut-last", "before", "after"] if thorough else rnd.sample(["cut-hdr", "cut-payload", "cut-last", "before", "after"], 2)):
+            scen.append({"sc": "c16.reverse", "args": {"clients": 2, "calls": 2, "reverse": True, "lose": lose, "pos": pos}})
+    scen.append({"sc": "c16.reverse", "args": {"clients": 2, "calls": 2, "reverse": False}})
+    scen.append({"sc": "c16.reverse", "args": {"clients": 2, "calls": 2, "reverse": True, "transport": "http"}})
+    perturb(rnd, scen, HOOK_POINTS_REQ + ["closeinflight.pre", "rd.err", "main.incoming"], 0.4)
+    trace, viol = run_ws_scenarios(run, wd, scen, "c16", timeout=3000)
+    report_ws(run, trace, viol, "C16", scen, "reverse")
+    for v in viol:   # same correlation / error guarantees as forward calls
+        if v[1] in ("C02", "C03") and v[2] not in ("process-crashed",):
+            run.violation("reverse: %s %s" % (v[1], v[2]), v[2], {"property": "C16", "scenario": scen[v[0] - 1], "clause": v[2], "call": v[3]})
+    run.cov["distinct_nontrivial"] = len(set(json.dumps(s, sort_keys=True) for s in scen))
+    run.cov["rule"] = "clients x calls x loss point x byte position x option/transport (+ seeded hook delays); distinct = distinct descriptions"
+    for s in scen[:3]:
+        run.sample(s)
+    run.sample([e for e in trace if e.get("ev") in ("RevStart", "RevCallEnd", "CallEnd")][:12])
